@@ -248,6 +248,42 @@ def run(ck, a):
       ck.add(Ob('twin/reach/' + tag, side, None, expect='sat', timeout=60))
       ck.add(Ob('twin/bias-without-gravity/' + tag, side + [z3.Not(eq_all([(bb[i], core.s_sub(cr[i], 1)) for i in range(nv)]))], None, expect='sat', timeout=60))
 
+  # ---------------- the state returned by step carries the mass matrix of the NEW configuration (histories of steps stay consistent)
+  for words in ([['h', 'h']] if not thorough else [['h', 'h'], ['h', 's']]):
+    spec = models.tree_model(rng, words[1:], free_root=False, root_word=words[0], ortho=False, limits_p=0.0, actuators=0, joint_props=False)
+    spec['custom'] = EXACT_INV
+    xml = models.to_xml(spec)
+    sys_ = mjcf.loads(xml)
+    ex = models.exact_params(spec)
+    keys = sorted(ex)
+    ctx = core.Ctx()
+    q = [z3.Real('q%d' % i) for i in range(sys_.q_size())]
+    qd = [z3.Real('v%d' % i) for i in range(sys_.qd_size())]
+    for v in q:
+      ctx.angle_points[v.decl().name()] = half_point(rng.choice([t for t in TS if t != 0]))
+    pars = [core.consts(ex[kx]) for kx in keys]
+    def fs(q, qd, *ps):
+      s_ = sys_.tree_replace({kx: p for kx, p in zip(keys, ps)})
+      o = gp.step(s_, gp.init(s_, q, qd), jp.zeros(s_.act_size()))
+      fresh = gp.init(s_, o.q, o.qd)        # the same real code evaluated on the new configuration
+      return o.mass_mx, fresh.mass_mx
+    tag = 'post-step/world-' + '.'.join(words)
+    try:
+      (M2, Mf), cj = core.run(ctx, fs, core.obj_array(q), core.obj_array(qd), *pars)
+    except (core.SXUnsupported, ZeroDivisionError, ValueError, AssertionError) as e_:
+      ck.harness_error('%s: %r' % (tag, e_))
+      continue
+    ck.traced('generalized.pipeline.init+step (post-step mass matrix)', cj)
+    replay[tag] = xml
+    from sx.abstract import Abstractor
+    ab = Abstractor(keep=30)
+    nv = len(qd)
+    es = [core.s_eq(M2[i, j], Mf[i, j]) for i in range(nv) for j in range(nv)]
+    es = [e for e in es if not (isinstance(e, bool) and e)]
+    goal = z3.BoolVal(False) if any(isinstance(e, bool) for e in es) else (z3.And([ab.formula(e) for e in es]) if es else True)
+    ck.add(Ob('mass-matrix of the returned state belongs to the new configuration/%s (%d cells not syntactically identical)' % (tag, len(es)), [], goal, timeout=60,
+              meta={'tag': tag, 'poststep': True}))
+
   def rep_dyn(ob):
     import mujoco
     tag = ob.meta['tag']
@@ -256,6 +292,14 @@ def run(ck, a):
     mj = mujoco.MjModel.from_xml_string(xml)
     d = mujoco.MjData(mj)
     r = np.random.RandomState(2)
+    if ob.meta.get('poststep'):
+      for _ in range(3):
+        qn, vn = r.uniform(-1, 1, s_.q_size()), r.uniform(-2, 2, s_.qd_size())
+        o = gp.step(s_, gp.init(s_, jp.array(qn), jp.array(vn)), jp.zeros(s_.act_size()))
+        fresh = gp.init(s_, o.q, o.qd)
+        if not np.allclose(np.asarray(o.mass_mx), np.asarray(fresh.mass_mx), atol=1e-9):
+          return True, {'xml': xml, 'q': qn.tolist(), 'qd': vn.tolist(), 'mass_mx_in_returned_state': np.asarray(o.mass_mx).tolist(), 'mass_mx_of_new_configuration': np.asarray(fresh.mass_mx).tolist()}
+      return False, {'why': 'returned mass matrix matches the new configuration on sampled states'}
     for _ in range(4):
       qn = np.array(s_.init_q)
       off = 0
